@@ -68,10 +68,10 @@ theorem fstree_key_strictly_inside (base key dst : Path) (hb : isAbs base = true
       rw [join2_abs hb] at hc ⊢
       exact strictlyInside_of_clean_hasPrefix (isAbs_append hb _) (ne_nil_of_isAbs hb) hc
 
-/-- The directory `Query` walks is inside the base path, for every query prefix — provided the base
-    directory exists (which `NewFSTree` establishes). -/
+/-- The directory `Query` walks is inside the base path — for every query prefix and **every** answer of
+    `os.Stat` (whatever exists or does not exist below, at, or around the base path). -/
 theorem fstree_query_walk_contained (base pre wr : Path) (stat : Path → StatKind) (hb : isAbs base = true)
-    (hdir : stat base = .dir) (h : queryWalkRoot base pre stat = .ok wr) : Inside base wr := by
+    (h : queryWalkRoot base pre stat = .ok (some wr)) : Inside base wr := by
   unfold queryWalkRoot at h
   cases hbf : buildFilePath base pre false with
   | error e => rw [hbf] at h; cases h
@@ -98,19 +98,85 @@ theorem fstree_query_walk_contained (base pre wr : Path) (stat : Path → StatKi
         refine ⟨h1, ?_⟩
         rw [h2, hx, List.dropLast_append_of_ne_nil (by simp)]
         exact List.prefix_append _ _
-    cases hst : stat wp with
-    | dir =>
-      rw [hst] at h
-      dsimp only at h
-      split at h
-      · cases h; exact hin
-      · rename_i hc
+    split at h
+    · cases h
+    · rename_i hguard
+      cases hst : stat wp with
+      | dir =>
+        rw [hst] at h
+        dsimp only at h
+        split at h
+        · cases h; exact hin
+        · rename_i hc
+          cases h
+          exact hparent (fun e => hc (Or.inr (Or.inr e)))
+      | file =>
+        rw [hst] at h
         cases h
-        exact hparent (fun e => hc (Or.inr (Or.inr e)))
-    | file | absent =>
-      rw [hst] at h
-      cases h
-      exact hparent (fun e => by rw [e, hdir] at hst; cases hst)
+        exact hparent (fun e => hguard ⟨e, Or.inr hst⟩)
+      | absent =>
+        rw [hst] at h
+        cases h
+        exact hparent (fun e => hguard ⟨e, Or.inl hst⟩)
+      | other => rw [hst] at h; cases h
+
+/-- **Everything a query touches is inside the base path — for every state of the file system.**
+    Whatever exists below, at, next to or above the database directory when `Query` runs (the directory removed or
+    replaced by a file behind the back of the open storage, intermediate directories missing, siblings whose names
+    extend the directory's name, ...): every `stat`, every directory listing and every file read of `Query` and its
+    walk lies inside the base path; and every record delivered carries as key the name, relative to the base
+    path, of a file that was read there (resolving the key from the base directory leads to that file). -/
+theorem fstree_query_reads_contained (fs : Ents) (hfs : fs.NamesNormal) (base pre : Path) (hb : isAbs base = true)
+    (r : WalkRes) (h : queryRun fs base pre = .ok r) :
+    (∀ a ∈ r.acc, Inside base a.path) ∧
+    (∀ k ∈ r.keys, ∃ p, Access.read p ∈ r.acc ∧ Inside base p ∧ relOf base p = some k ∧
+      resolveFrom (resolve base) k = resolve p) := by
+  suffices H : WalkGood base r by
+    refine ⟨H.1, fun k hk => ?_⟩
+    obtain ⟨p, h1, h2, h3⟩ := H.2 k hk
+    exact ⟨p, h1, H.1 _ h1, h2, h3⟩
+  unfold queryRun at h
+  cases hbf : buildFilePath base pre false with
+  | error e => rw [hbf] at h; cases h
+  | ok wp =>
+    rw [hbf] at h
+    dsimp only at h
+    have hwp := (fstree_contained base pre false wp hb hbf).1
+    have hstat : WalkGood base { acc := [Access.stat wp] } :=
+      walkGood_accOnly (by intro a ha; simp at ha; subst ha; exact hwp)
+    cases hq : queryWalkRoot base pre (statKindOf fs) with
+    | error e => rw [hq] at h; cases h
+    | ok o =>
+      rw [hq] at h
+      cases o with
+      | none => cases h; exact hstat
+      | some wr =>
+        dsimp only at h
+        cases h
+        have hin := fstree_query_walk_contained base pre wr (statKindOf fs) hb hq
+        -- the walk root is a cleaned path: the walk prefix itself or its `Dir`
+        have hcl : clean wr = wr := by
+          have hwpc : clean wp = wp := by
+            unfold buildFilePath at hbf
+            simp only [Bool.false_eq_true, false_and, if_false] at hbf
+            split at hbf
+            · cases hbf
+            · cases hbf; exact clean_join2 hb pre
+          unfold queryWalkRoot at hq
+          rw [hbf] at hq
+          dsimp only at hq
+          have hdir : clean (dirOf wp) = dirOf wp := clean_dirOf hwp.1
+          split at hq
+          · cases hq
+          · cases hst : statKindOf fs wp with
+            | dir =>
+              rw [hst] at hq
+              dsimp only at hq
+              split at hq <;> (cases hq; first | exact hwpc | exact hdir)
+            | file => rw [hst] at hq; cases hq; exact hdir
+            | absent => rw [hst] at hq; cases hq; exact hdir
+            | other => rw [hst] at hq; cases hq
+        exact walkGood_andThen hstat (walkTop_good hb pre hfs hin hcl)
 
 /-! ### Directory-structure helper: requested paths -/
 
@@ -178,6 +244,98 @@ theorem dirstructure_rel_contained (root : Path) (hr : isAbs root = true) :
     (∀ rel dirs, ensureRelPath root rel = .ok dirs → ∀ d ∈ dirs, Inside root d) ∧
     (∀ names dirs, ensureRelDir root names = .ok dirs → ∀ d ∈ dirs, Inside root d) :=
   ⟨fun _ dirs h => dirstructure_contained root _ dirs hr h, fun _ dirs h => dirstructure_contained root _ dirs hr h⟩
+
+/-! ### Directory-structure helper as a stateful object: histories of calls on one tree
+
+`dhistory (newDirStructure root perm) calls` is everything handed to `EnsureDirectory` (created / chmod-ed /
+a file of that name replaced) while the calls `ChildDir`, `Ensure`, `EnsureAbsPath`, `EnsureRelPath`, `EnsureRelDir`
+are made in any order on any node of the tree, with arbitrary names. -/
+
+/-- **Containment for every history.**  Whatever sequence of `ChildDir` / `Ensure*` calls is made on the nodes of
+    one `DirStructure` tree, with whatever names, every directory that is created, chmod-ed or put in place of a
+    file lies inside the root of the tree. -/
+theorem dirstructure_history_contained (root : Path) (perm : Nat) (hr : isAbs root = true) (calls : List DCall) :
+    ∀ d ∈ dhistory (newDirStructure root perm) calls, Inside root d.1 := by
+  suffices H : ∀ t, DWF t root → ∀ d ∈ dhistory t calls, Inside root d.1 from H _ (dwf_new root perm)
+  induction calls with
+  | nil => intro t _ d hd; simp [dhistory] at hd
+  | cons c cs ih =>
+    intro t hw d hd
+    unfold dhistory at hd
+    dsimp only at hd
+    rw [List.mem_append] at hd
+    rcases hd with hd | hd
+    · cases hr' : (dcall t c).2 with
+      | error e => rw [hr'] at hd; simp at hd
+      | ok ds =>
+        rw [hr'] at hd
+        dsimp only at hd
+        cases c with
+        | childDir h name p =>
+          simp only [dcall] at hr'
+          split at hr' <;> (cases hr'; simp at hd)
+        | ensure h =>
+          simp only [dcall] at hr'
+          split at hr'
+          · rename_i hh; exact ensureAbsPathT_contained hw hr hh _ ds hr' d hd
+          · cases hr'; simp at hd
+        | ensureAbs h p =>
+          simp only [dcall] at hr'
+          split at hr'
+          · rename_i hh; exact ensureAbsPathT_contained hw hr hh _ ds hr' d hd
+          · cases hr'; simp at hd
+        | ensureRel h rel =>
+          simp only [dcall] at hr'
+          split at hr'
+          · rename_i hh; exact ensureAbsPathT_contained hw hr hh _ ds hr' d hd
+          · cases hr'; simp at hd
+        | ensureRelDir h names =>
+          simp only [dcall] at hr'
+          split at hr'
+          · rename_i hh; exact ensureAbsPathT_contained hw hr hh _ ds hr' d hd
+          · cases hr'; simp at hd
+    · exact ih _ (dwf_dcall hw c) d hd
+
+/-- What the code guarantees about the registered children, in every reachable tree: a child's path is the
+    parent's path joined with the very name it is registered (and looked up) under. -/
+theorem dirstructure_children_registered_as_named (root : Path) (perm : Nat) (calls : List DCall) (i p : Nat) (n : DNode)
+    (hn : (treeAfter (newDirStructure root perm) calls)[i]? = some n) (hp : n.parent = some p) :
+    p < i ∧ n.path = join2 ((treeAfter (newDirStructure root perm) calls).pathOf p) n.key :=
+  (dwf_treeAfter (dwf_new root perm) calls).2.2.2 i n hn p hp
+
+/-- The source still has the shape the invariant above is read from (facts regenerated from `utils/structure.go`
+    on every run): `ChildDir` registers and builds the path from the same, unmodified name parameter, and `ensure`
+    finds children only by `Children[pathDirs[0]]`. -/
+theorem dirstructure_source_registers_children_as_named :
+    PB.Gen.Paths.childDirKeyIsGivenName = true ∧ PB.Gen.Paths.childDirPathJoinsGivenName = true ∧
+      PB.Gen.Paths.ensureLooksUpByElement = true := by decide
+
+/-- In every reachable tree, on every node: a requested absolute path that leaves the root is refused
+    (so a child registered under an escaping name, e.g. `ChildDir("../evil")`, can never be ensured itself). -/
+theorem dirstructure_history_rejects (root : Path) (perm : Nat) (hr : isAbs root = true) (calls : List DCall) (h : Nat)
+    (hh : h < (treeAfter (newDirStructure root perm) calls).length) (dirPath : Path) (hd : isAbs dirPath = true)
+    (hesc : ¬ resolve root <+: resolve dirPath) :
+    ensureAbsPathT (treeAfter (newDirStructure root perm) calls) h dirPath = .error .outside := by
+  have hw := dwf_treeAfter (dwf_new root perm) calls
+  obtain ⟨r', hsl, hres, _⟩ := slashed_root hr
+  unfold ensureAbsPathT
+  rw [topOf_eq_zero hw _ h hh hh]
+  dsimp only
+  rw [hw.2.1, hsl]
+  have hne : clean dirPath ≠ root := by
+    intro heq
+    apply hesc
+    rw [← resolve_clean hd, heq]; exact List.prefix_refl _
+  have hnp : hasPrefix (clean dirPath) (r' ++ [47]) = false := by
+    cases hp : hasPrefix (clean dirPath) (r' ++ [47]) with
+    | false => rfl
+    | true =>
+      exfalso
+      apply hesc
+      rw [clean_abs hd] at hp
+      have := resolve_prefix_of_hasPrefix (resolve_allNormal dirPath) hp
+      rwa [hres] at this
+  simp [hne, hnp]
 
 /-! ### Archive unpacking: zip entry names -/
 
@@ -354,14 +512,37 @@ example : buildFilePath (B "/a/root") (B "") true = .error .tooShort := by decid
 example : buildFilePath (B "/a/root") (B "d/../x//y/.") true = .ok (B "/a/root/x/y") := by decide
 example : buildFilePath (B "/a/root") (B "../root/k") true = .ok (B "/a/root/k") := by decide
 example : buildFilePath (B "/a/root") (B "") false = .ok (B "/a/root") := by decide
-example : queryWalkRoot (B "/a/root") (B "d/b") (fun p => if p = B "/a/root/d/b" then .file else .dir) = .ok (B "/a/root/d") := by decide
+example : queryWalkRoot (B "/a/root") (B "d/b") (fun p => if p = B "/a/root/d/b" then .file else .dir) = .ok (some (B "/a/root/d")) := by decide
 example : queryWalkRoot (B "/a/root") (B "../root-other") (fun _ => .dir) = .error .integrity := by decide
-example : queryWalkRoot (B "/a/root") (B "d") (fun _ => .dir) = .ok (B "/a/root") := by decide
-example : queryWalkRoot (B "/a/root") (B "d/") (fun _ => .dir) = .ok (B "/a/root/d") := by decide
-example : queryWalkRoot (B "/a/root") (B "d/..") (fun _ => .dir) = .ok (B "/a/root") := by decide
-example : queryWalkRoot (B "/a/root") (B "") (fun _ => .dir) = .ok (B "/a/root") := by decide
+example : queryWalkRoot (B "/a/root") (B "d") (fun _ => .dir) = .ok (some (B "/a/root")) := by decide
+example : queryWalkRoot (B "/a/root") (B "d/") (fun _ => .dir) = .ok (some (B "/a/root/d")) := by decide
+example : queryWalkRoot (B "/a/root") (B "d/..") (fun _ => .dir) = .ok (some (B "/a/root")) := by decide
+example : queryWalkRoot (B "/a/root") (B "") (fun _ => .dir) = .ok (some (B "/a/root")) := by decide
+-- the database directory removed / replaced by a file behind the back of the open storage: no walk at all
+example : queryWalkRoot (B "/a/root") (B "") (fun _ => .absent) = .ok none := by decide
+example : queryWalkRoot (B "/a/root") (B "../root") (fun _ => .file) = .ok none := by decide
+example : queryWalkRoot (B "/a/root") (B "x") (fun _ => .absent) = .ok (some (B "/a/root")) := by decide
+example : queryWalkRoot (B "/a/root") (B "a/x") (fun _ => .other) = .error .statErr := by decide
 example : buildFilePath (B "/a/root") (B "d/../x") true = .ok (join2 (B "/a/root") (B "d/../x")) :=
   fstree_accepts_inside (B "/a/root") (B "d/../x") true (by decide) (by decide) (by decide) (by decide) (B "x") [] (by decide)
+-- fstree on a file-system state: `/x` holds the database directory `db` (or not) and a sibling `db-old` with a record
+private def fsWith (db : Ents → Ents) : Ents :=
+  Ents.dir (B "x") (db (Ents.dir (B "db-old") (Ents.file (B "secret") true Ents.nil) (Ents.file (B "note.txt") false Ents.nil))) Ents.nil
+private def fsDb : Ents := fsWith (Ents.dir (B "db") (Ents.file (B "a") true (Ents.dir (B "d") (Ents.file (B "b") true Ents.nil) Ents.nil)))
+example : queryRun fsDb (B "/x/db") (B "") = .ok ⟨[.stat (B "/x/db"), .stat (B "/x/db"), .list (B "/x/db"),
+    .stat (B "/x/db/a"), .read (B "/x/db/a"), .stat (B "/x/db/d"), .list (B "/x/db/d"), .stat (B "/x/db/d/b"), .read (B "/x/db/d/b")],
+    [B "a", B "d/b"], false⟩ := by decide
+example : queryRun fsDb (B "/x/db") (B "d") = .ok ⟨[.stat (B "/x/db/d"), .stat (B "/x/db"), .list (B "/x/db"),
+    .stat (B "/x/db/a"), .read (B "/x/db/a"), .stat (B "/x/db/d"), .list (B "/x/db/d"), .stat (B "/x/db/d/b"), .read (B "/x/db/d/b")],
+    [B "d/b"], false⟩ := by decide
+-- the database directory removed behind the back of the open storage: prefixes that resolve to it are answered without a walk
+example : queryRun (fsWith id) (B "/x/db") (B "") = .ok { acc := [.stat (B "/x/db")] } := by decide
+example : queryRun (fsWith id) (B "/x/db") (B "../db") = .ok { acc := [.stat (B "/x/db")] } := by decide
+example : queryRun (fsWith (Ents.file (B "db") true)) (B "/x/db") (B ".") = .ok { acc := [.stat (B "/x/db")] } := by decide
+example : queryRun (fsWith id) (B "/x/db") (B "k") = .ok { acc := [.stat (B "/x/db/k"), .stat (B "/x/db")] } := by decide
+example : queryRun (fsWith id) (B "/x/db") (B "../db-old") = .error .integrity := by decide
+-- what the defect was (fixed in the repo): a walk that starts at the parent lists it before the callback can say SkipDir
+example : walkTop (fsWith id) (B "/x/db") (B "") (B "/x") = { acc := [.stat (B "/x"), .list (B "/x")] } := by decide
 -- DirStructure (#22): parent references behind a matching prefix
 example : ensureAbsPath (B "/a/root") (B "/a/root/../outside/x") = .error .outside := by decide
 example : ensureAbsPath (B "/a/root") (B "/a/root-other/x") = .error .outside := by decide
@@ -369,6 +550,17 @@ example : ensureAbsPath (B "/a/root/") (B "/a/root/tmp/../k//m") = .ok [B "/a/ro
 example : ensureAbsPath (B "/a/root") (B "/a/root/") = .ok [B "/a/root"] := by decide
 example : ensureRelPath (B "/a/root") (B "../other/k") = .error .outside := by decide
 example : ensureRelDir (B "/a/root") [B "..", B "root", B "k"] = .ok [B "/a/root", B "/a/root/k"] := by decide
+-- DirStructure histories (seeded C18-r2-2 class): a child registered under an escaping name is inert
+example : (childDir (newDirStructure (B "/a/root") 0o755) 0 (B "../evil") 0o700) =
+    ([⟨none, [], B "/a/root", 0o755⟩, ⟨some 0, B "../evil", B "/a/evil", 0o700⟩], 1) := by decide
+example : dhistory (newDirStructure (B "/a/root") 0o755)
+    [.childDir 0 (B "../evil") 0o700, .ensure 1, .ensureRel 0 (B "evil/sub")] =
+    [(B "/a/root", 0o755), (B "/a/root/evil", 0o755), (B "/a/root/evil/sub", 0o755)] := by decide
+example : dhistory (newDirStructure (B "/a/root") 0o755)
+    [.childDir 0 (B "tmp") 0o700, .childDir 1 (B "sub") 0o750, .childDir 0 (B "tmp") 0o710, .ensureAbs 2 (B "/a/root/tmp/sub/k/m")] =
+    [(B "/a/root", 0o755), (B "/a/root/tmp", 0o710), (B "/a/root/tmp/sub", 0o750), (B "/a/root/tmp/sub/k", 0o750), (B "/a/root/tmp/sub/k/m", 0o750)] := by decide
+example : ensureT (childDir (newDirStructure (B "/a/root") 0o755) 0 (B "../root-old") 0o700).1 1 = .error .outside := by decide
+example : ensureRelPathT (childDir (newDirStructure (B "/a/root") 0o755) 0 (B "x/../../evil") 0o700).1 1 (B "k") = .error .outside := by decide
 -- unpacking (#24): zip slip
 example : unpackDst (B "/s/tmp/thing_v1-0-0") (B "../../../root-other/evil") = .error .insecure := by decide
 example : unpackDst (B "/s/tmp/thing_v1-0-0") (B "/abs") = .ok (B "/s/tmp/thing_v1-0-0/abs") := by decide
